@@ -338,7 +338,7 @@ def run(ctx):
         ctx.oblige("skeleton-conformance:c15", False, repr(e)[:300])
         conformance = {"error": repr(e)[:300]}
 
-    budget = (17 * 60) if ctx.thorough() else 150
+    budget = (17 * 60) if ctx.thorough() else 120
     t_proof = time.time() - ctx.t0
     runner = Runner(ctx)
     per_fn = {f: {"scenarios": 0, "ops_counted": 0, "injected": 0, "raised": 0, "excused_restore_op_failed": 0,
